@@ -116,8 +116,10 @@ func c09Profiles(tier Tier) []*explore.Profile {
 	if tier.Thorough() {
 		depth = 3
 	}
+	twice := ledgerEnv(2)
+	twice.PayableHandlerTwice = true
 	p := &explore.Profile{
-		Name: "payable", EnvCfg: ledgerEnv(2), Depth: depth, Deadline: tierDeadline(tier), Oracles: orc,
+		Name: "payable", EnvCfg: twice, Depth: depth, Deadline: tierDeadline(tier), Oracles: orc,
 		Seeds: func(env *world.Env) []explore.SeedState {
 			var out []explore.SeedState
 			for _, ans := range []int8{world.PayYes, world.PayNo, world.PayError} {
